@@ -71,37 +71,45 @@ theorem len_not_refined_counterexample : ¬ all_ops_statement := by
 
 /-! ### the eager `+=` is the specification -/
 
-/-- one eager `+=` on a flushed object computes `specAdd`, whenever no argument is both prepend-type
-and once-only -/
-theorem eager_add_eq_spec (cfg : Cfg) (hk : NoPrependUnique cfg.K) (L b : List Arg) :
+/-- one eager `+=` on a flushed object computes `specAdd` -- for every class, without any condition
+on the tables (since the repair 661f340 the once-only test also looks at the running batch) -/
+theorem eager_add_eq_spec (cfg : Cfg) (L b : List Arg) :
     (stepEager cfg (mk L) (.iadd b)).1 = mk (specAdd cfg.K L b) := by
-  have h := eager_iadd_container hk L b
+  have h := eager_iadd_container (K := cfg.K) L b
   simp only [stepEager, step]
   have h2 := flush_eq (K := cfg.K) _ (inv_iadd (mk L) b (inv_mk L))
   rw [h2] at h ⊢
   simp only [mk] at h ⊢
   rw [h]
 
+/-- the list read after a single lazy `+=` is `specAdd` -/
+theorem lazy_add_eq_spec (cfg : Cfg) (L b : List Arg) :
+    finalLazy cfg (mk L) [.iadd b] = specAdd cfg.K L b := by
+  simp only [finalLazy, step]
+  exact eager_iadd_container L b
+
 /-- `append` is `+= [a]` -/
 theorem append_is_iadd (cfg : Cfg) (s : State) (a : Arg) : step cfg s (.append a) = step cfg s (.iadd [a]) := rfl
 
-/-- the table obligation implies the hypothesis of `eager_add_eq_spec` -/
+/-- a sufficient table condition for "no argument is both prepend-type and once-only" (no longer a
+hypothesis of any theorem here; the harness still reports it per class) -/
 theorem tablesOk_implies_noPrependUnique (T : Tables) (h : tablesOk T = true) : NoPrependUnique T.classify :=
   tablesOk_sound T h
 
-/-- **per-run obligation** on the regenerated tables of `CLikeCompilerArgs` -/
-theorem clike_tables_ok : tablesOk clikeTables = true := by decide
-
-/-- **per-run obligation** on the regenerated tables of the base class -/
-theorem base_tables_ok : tablesOk baseTables = true := by decide
-
-theorem clike_add_eq_spec (L b : List Arg) :
-    (stepEager (cfgOf clikeTables) (mk L) (.iadd b)).1 = mk (specAdd clikeTables.classify L b) :=
-  eager_add_eq_spec (cfgOf clikeTables) (tablesOk_sound _ clike_tables_ok) L b
-
-theorem base_add_eq_spec (L b : List Arg) :
-    (stepEager (cfgOf baseTables) (mk L) (.iadd b)).1 = mk (specAdd baseTables.classify L b) :=
-  eager_add_eq_spec (cfgOf baseTables) (tablesOk_sound _ base_tables_ok) L b
+/-- **per-run obligation on the regenerated C-like tables**: the kinds the property statement names --
+`-I`/`-L` prepend- and override-type, `-D`/`-U`/`-isystem` override-type and appended, `-lfoo`, library
+files and `-pthread` once-only, plain flags and objects never de-duplicated -/
+theorem clike_statement_kinds :
+    ([(['-', 'I', 'a'], true, Dedup.overridden), (['-', 'L', 'a'], true, .overridden),
+      (['-', 'D', 'x'], false, .overridden), (['-', 'U', 'x'], false, .overridden),
+      (['-', 'i', 's', 'y', 's', 't', 'e', 'm', '/', 'i'], false, .overridden),
+      (['-', 'l', 'f', 'o', 'o'], false, .unique), (['x', '.', 'a'], false, .unique),
+      (['/', 'l', 'i', 'b', 'y', '.', 's', 'o', '.', '1'], false, .unique),
+      (['-', 'p', 't', 'h', 'r', 'e', 'a', 'd'], false, .unique),
+      (['-', 'O', '2'], false, .noDedup), (['m', '.', 'o'], false, .noDedup)] :
+        List (Arg × Bool × Dedup)).all
+      (fun t => clikeTables.pp t.1 == t.2.1 && decide (clikeTables.dd t.1 = t.2.2)) = true := by
+  decide
 
 /-! ### consequences: what the specification guarantees (for every classifier) -/
 
@@ -268,11 +276,26 @@ theorem once_only_not_repeated (L b : List Arg) (x : Arg) (hx : K.dd x = .unique
     simp only [h, if_false, List.count_eq_zero.mpr h]
     split <;> omega
 
-/-! ### the D class: the table obligation fails, and so does the once-only clause -/
+/-! ### once-only arguments on the implementation's `+=`, every class
 
-/-- the tables of `DCompilerArgs` as of the pinned tree (literal copy, so that this section keeps
-compiling when the class is repaired; the live tables are `Generated.dTables`) -/
-def dTablesPinned : Tables where
+Until 661f340 `DCompilerArgs` (where `-Lx.a` is prepend-type *and* once-only) kept both copies of a repeat
+inside one batch; the statement below was false for it and is now proved for every table. -/
+
+/-- a new once-only argument appears at most once after `+=`, for every class tables -/
+theorem once_only_holds (T : Tables) (L b : List Arg) (x : Arg) (hx : T.classify.dd x = .unique) (hL : x ∉ L) :
+    ((stepEager (cfgOf T) (mk L) (.iadd b)).1.container).count x ≤ 1 := by
+  rw [eager_add_eq_spec (cfgOf T) L b]
+  exact (once_only_not_repeated T.classify L b x hx).2.2 hL
+
+/-- the former failing input, for every classifier: a once-only argument added twice in ONE `+=` to an
+empty list is kept once (`x = -Lx.a` on the D tables was F-ARG-D) -/
+theorem repeat_in_one_batch_dropped (cfg : Cfg) (x : Arg) (hx : cfg.K.dd x = .unique) :
+    (finalLazy cfg (mk []) [.iadd [x, x]]).count x = 1 := by
+  rw [lazy_add_eq_spec]
+  exact (once_only_not_repeated cfg.K [] [x, x] x hx).2.1 (by simp) (by simp)
+
+/-- the D tables as of 661f340 (literal, so that the example does not depend on future table edits) -/
+def dTablesLit : Tables where
   prependPrefixes := [['-', 'I'], ['-', 'L']]
   dedup2Prefixes := [['-', 'I']]
   dedup2Suffixes := []
@@ -282,39 +305,11 @@ def dTablesPinned : Tables where
   dedup1Args := []
   alwaysDedupArgs := []
 
-def wLxa : Arg := ['-', 'L', 'x', '.', 'a']
-
-/-- the statement that the implementation's eager `+=` drops repeats of once-only arguments, for a
-given class -/
-def once_only_full_statement (T : Tables) : Prop :=
-  ∀ (L b : List Arg) (x : Arg), T.classify.dd x = .unique → x ∉ L →
-    ((stepEager (cfgOf T) (mk L) (.iadd b)).1.container).count x ≤ 1
-
-theorem d_tables_not_ok : tablesOk dTablesPinned = false := by decide
-
-/-- `-Lx.a` is prepend-type and once-only for the D class, and added twice in one `+=` both copies stay -/
-theorem d_once_only_counterexample : ¬ once_only_full_statement dTablesPinned := by
-  intro h
-  have := h [] [wLxa, wLxa] wLxa (by decide) (by decide)
-  revert this
-  decide
-
-/-- ... while in two increments only one stays -/
-theorem d_two_increments_keep_one :
-    finalLazy (cfgOf dTablesPinned) (mk []) [.iadd [wLxa], .iadd [wLxa]] = [wLxa] := by decide
-
-/-- with the table obligation the clause holds for every class (so it holds for C-like and base) -/
-theorem once_only_holds_of_tablesOk (T : Tables) (h : tablesOk T = true) : once_only_full_statement T := by
-  intro L b x hx hL
-  rw [eager_add_eq_spec (cfgOf T) (tablesOk_sound T h) L b]
-  exact (once_only_not_repeated T.classify L b x hx).2.2 hL
-
-/-- **per-run statement about the live D tables**: either they satisfy the obligation (the class was
-repaired) or the model exhibits the defect on the computed witness -/
-theorem d_tables_dichotomy :
-    tablesOk dTables = true ∨
-    (∃ w, tablesWitness dTables = some w ∧ dTables.pp w = true ∧ dTables.dd w = .unique ∧
-      finalLazy (cfgOf dTables) (mk []) [.iadd [w, w]] = [w, w]) := by
+/-- the hypothesis is met by `-Lx.a` on the D tables (prepend-type and once-only), and the model computes
+one copy -/
+example : dTablesLit.classify.dd ['-', 'L', 'x', '.', 'a'] = .unique ∧ dTablesLit.pp ['-', 'L', 'x', '.', 'a'] = true ∧
+    finalLazy (cfgOf dTablesLit) (mk []) [.iadd [['-', 'L', 'x', '.', 'a'], ['-', 'L', 'x', '.', 'a']]] =
+      [['-', 'L', 'x', '.', 'a']] := by
   decide
 
 /-! ### `to_native` -/
